@@ -791,7 +791,15 @@ func C07(c *vf.Ctx) {
 			}
 			w.Flow(40, func(w *sys.World) string { return "retnil" })
 		},
-		mons: []func(*runView) []finding{monWire},
+		mons: []func(*runView) []finding{func(v *runView) []finding {
+			out := monWire(v)
+			for _, f := range out {
+				if strings.HasPrefix(f.Sig, "stream id reused on the wire") {
+					return out // the peer's rejection that follows is the consequence of that (recorded) defect
+				}
+			}
+			return append(out, monPeerRejects(v)...)
+		}},
 		design: &designCheck{cfg: sys.Config{Small: true, Soft: true, Threads: []string{"c1"}}, kinds: []string{"start", "relw", "cancel"},
 			maxRPC: 2, maxStims: 5, invs: "TypeOK StreamInvs OneWrite CloseOnce"},
 		designT: &designCheck{cfg: sys.Config{Small: true, Soft: true, Threads: []string{"c1", "c2"}}, kinds: []string{"start", "relw", "cancel"},
@@ -974,8 +982,9 @@ func C02(c *vf.Ctx) {
 			{Small: true, Soft: true, Points: []string{"conn.created", "conn.meta.written"}, Threads: thr3},
 			{Small: true, Soft: false, Threads: thr3},
 			{Small: true, Soft: true, Points: []string{"manager.reader.dispatch", "manager.acquire.got"}, Threads: thr3}, // late packets meet a reader preempted before its dispatch
+			{Small: true, Soft: true, GateU: true, Threads: []string{"c1", "c2", "c3", "c4"}},                            // user code (Marshal, Unmarshal) holds a stream's locks while the next RPC starts
 		},
-		scen:    []string{"invoke-overtaken-after-cancel", "metadata-then-abandoned", "queued-call-cancelled"},
+		scen:    []string{"invoke-overtaken-after-cancel", "metadata-then-abandoned", "queued-call-cancelled", "terminal-op-queued-behind-marshal", "decoding-with-next-message-queued"},
 		kinds:   []string{"start", "hstep", "relw", "deliver", "cancel", "point"},
 		weights: map[string]int{"invoke": 5, "newstream": 3, "op": 6, "hstep": 8, "relw": 12, "deliver": 8, "cancel": 3, "point": 2},
 		tail: func(w *sys.World, rng *rand.Rand, ts *tailState) {
@@ -990,7 +999,7 @@ func C02(c *vf.Ctx) {
 				res02 = probe(w, ts)
 			}
 		},
-		mons: []func(*runView) []finding{monWire, monDelivery, monIsolation, monMetaAsC02},
+		mons: []func(*runView) []finding{monWire, monDelivery, monIsolation, monMetaAsC02, monPeerRejects},
 		post: func(v *runView, ts *tailState) []finding {
 			at, ok := ts.Marks["ended"]
 			if !ok {
